@@ -156,25 +156,36 @@ pub fn check_files(case: &FileCase) -> CaseResult {
                     let into = matches!(op, FOp::CopyInto(..));
                     opname = if into { "copy-into-dir" } else { "copy-file" };
                     let (src, dst) = (idx(*i), if into { into_target(*i, *j) } else { idx(*j) });
-                    if !model.contains_key(&src) {
-                        continue; // source missing: error path is C01's business
-                    }
-                    let data = model[&src].clone();
-                    model.insert(dst, data);
                     let dstp = if into { format!("{}/{}", base, if j % 2 == 0 { "d1" } else { "d2" }) } else { p(*j) };
-                    v.copy(p(*i), dstp).map_err(|e| e.to_string())
+                    if !model.contains_key(&src) {
+                        // source missing: whether and how the call fails is C01's business, but no file's
+                        // content may change (the destination's least of all)
+                        let _ = v.copy(p(*i), dstp);
+                        ctx().class("files:copy-from-missing-source");
+                        Ok(())
+                    } else {
+                        let data = model[&src].clone();
+                        model.insert(dst, data);
+                        v.copy(p(*i), dstp).map_err(|e| e.to_string())
+                    }
                 },
                 FOp::Move(i, j) | FOp::MoveInto(i, j) => {
                     let into = matches!(op, FOp::MoveInto(..));
                     opname = if into { "move-into-dir" } else { "move" };
                     let (src, dst) = (idx(*i), if into { into_target(*i, *j) } else { idx(*j) });
-                    if !model.contains_key(&src) || src == dst {
+                    if src == dst {
                         continue;
                     }
-                    let data = model.remove(&src).unwrap();
-                    model.insert(dst, data);
                     let dstp = if into { format!("{}/{}", base, if j % 2 == 0 { "d1" } else { "d2" }) } else { p(*j) };
-                    v.move_p(p(*i), dstp).map_err(|e| e.to_string())
+                    if !model.contains_key(&src) {
+                        let _ = v.move_p(p(*i), dstp);
+                        ctx().class("files:move-from-missing-source");
+                        Ok(())
+                    } else {
+                        let data = model.remove(&src).unwrap();
+                        model.insert(dst, data);
+                        v.move_p(p(*i), dstp).map_err(|e| e.to_string())
+                    }
                 },
                 FOp::Remove(i) => {
                     opname = "remove";
@@ -376,7 +387,7 @@ fn fop() -> impl Strategy<Value = FOp> {
 }
 
 pub fn run(c: &Ctx) {
-    c.set_rule("histories of 1..30 file operations (write_all, append_all, write_lines, append_line, append_lines, write()/append() handles with chunked writes and flushes, copy file->file and into a directory, move_p file->file and into a directory, remove+recreate; write()/append() handles that stay open across later steps on other files and are flushed/dropped at arbitrary later points) over six file paths in two directories; data: empty, ASCII with newlines, multi-byte UTF-8, invalid UTF-8 / CR / NUL, random bytes, 1-16 KiB and 63-67 KiB blocks; lines incl. empty ones and ones carrying a terminator. After EVERY step every path is read back (read handle, read_all, read_lines; on Stdfs also std::fs::read) and compared with a byte-vector model: write replaces, append extends, helpers add one newline per line, untouched files unchanged, copies/moves do not alias; read_lines(write_lines(ls))==ls for proper lines. Both backends. Plus, on Stdfs, every program of length 5/6 over several append writers of one file (two append handles with write+flush, append_all, append_line): old content plus every chunk in call order after every step. Non-trivial = history with >=2 writes/appends to one file and a multi-byte or invalid-UTF-8 payload; distinct by history.");
+    c.set_rule("histories of 1..30 file operations (write_all, append_all, write_lines, append_line, append_lines, write()/append() handles with chunked writes and flushes, copy file->file and into a directory, move_p file->file and into a directory, copies and moves from a missing source (whatever they answer, no file's content may change), remove+recreate; write()/append() handles that stay open across later steps on other files and are flushed/dropped at arbitrary later points) over six file paths in two directories; data: empty, ASCII with newlines, multi-byte UTF-8, invalid UTF-8 / CR / NUL, random bytes, 1-16 KiB and 63-67 KiB blocks; lines incl. empty ones and ones carrying a terminator. After EVERY step every path is read back (read handle, read_all, read_lines; on Stdfs also std::fs::read) and compared with a byte-vector model: write replaces, append extends, helpers add one newline per line, untouched files unchanged, copies/moves do not alias; read_lines(write_lines(ls))==ls for proper lines. Both backends. Plus, on Stdfs, every program of length 5/6 over several append writers of one file (two append handles with write+flush, append_all, append_line): old content plus every chunk in call order after every step. Non-trivial = history with >=2 writes/appends to one file and a multi-byte or invalid-UTF-8 payload; distinct by history.");
     c.assume("append_line(\"\") and write_lines/append_lines whose joined text is empty: no-op or newline form both admitted (deliberately skipped by both backends; outside the statement's round-trip clause)");
     // "an append adds at the end and never alters the existing prefix" with several writers on one Stdfs file
     crate::props::c07::run_append_interleave(c, c.tier.pick(5, 6));
